@@ -93,12 +93,15 @@ fn judge(case: &c13::Case, run: &c13::Run, ctx: &mut CaseCtx) {
     // querying browse takes over (one mark per loop iteration, i.e. within a few ms of that call)
     let late_refresh = |t: u64, pos: usize| -> bool {
         run.browse_chans.iter().any(|c| matches!(c.kind, ChanKind::Browse { cache_only: true, .. }) && c.opened < pos)
-            && run.browse_chans.iter().any(|c| {
+            && (run.browse_chans.iter().any(|c| {
                 matches!(c.kind, ChanKind::Browse { cache_only: false, .. }) && {
                     let to = time_at(c.opened);
                     t >= to && t <= to + 3
                 }
             })
+                // ... or when an answer has just connected the record to a querying browse (an SRV
+                // of a browsed instance naming a host whose address only the cache-only browse held)
+                || d.log[..pos].iter().rev().take_while(|e| e.t + 3 >= t).any(|e| matches!(&e.ev, Ev::Rx { msg: Some(m), .. } if m.is_response())))
     };
     let mut long_search = false;
     let mut reissued = false;
